@@ -11,6 +11,126 @@ One request per input line, exactly one reply line per request.
 -/
 open Scfg
 
+open Scfg.Py in
+mutual
+partial def pE : List String → Option (E × List String)
+  | "v" :: x :: r => some (.var x, r)
+  | "c" :: rp :: t :: r => some (.cst ⟨rp, t == "1"⟩, r)
+  | "l" :: id :: n :: r => do
+    let k ← n.toNat?
+    some (.leaf (← id.toNat?) (r.take k), r.drop k)
+  | "bo" :: a :: n :: r => do
+    let (es, r') ← pEs (← n.toNat?) r
+    some (.boolop (a == "1") es, r')
+  | "bi" :: id :: r => do
+    let (l, r1) ← pE r
+    let (rr, r2) ← pE r1
+    some (.binop (← id.toNat?) l rr, r2)
+  | "ca" :: id :: r => do
+    let (f, r1) ← pE r
+    match r1 with
+    | n :: r2 => do
+      let (es, r3) ← pEs (← n.toNat?) r2
+      some (.call (← id.toNat?) f es, r3)
+    | [] => none
+  | "cm" :: id :: r => do
+    let (l, r1) ← pE r
+    match r1 with
+    | n :: r2 => do
+      let (es, r3) ← pEs (← n.toNat?) r2
+      some (.compare (← id.toNat?) l es, r3)
+    | [] => none
+  | "no" :: r => do
+    let (e, r1) ← pE r
+    some (.notE e, r1)
+  | "in" :: x :: n :: r => do
+    let k ← n.toNat?
+    let vs ← (r.take k).mapM String.toInt?
+    some (.inT x vs, r.drop k)
+  | "ns" :: x :: r => some (.neSent x, r)
+  | "it" :: id :: r => do
+    let (e, r1) ← pE r
+    some (.iterOf (← id.toNat?) e, r1)
+  | "nx" :: id :: x :: r => do some (.nextOf (← id.toNat?) x, r)
+  | _ => none
+partial def pEs : Nat → List String → Option (List E × List String)
+  | 0, r => some ([], r)
+  | n + 1, r => do
+    let (e, r1) ← pE r
+    let (es, r2) ← pEs n r1
+    some (e :: es, r2)
+partial def pS : List String → Option (S × List String)
+  | "as" :: x :: r => do
+    let (e, r1) ← pE r
+    some (.assign x e, r1)
+  | "st" :: id :: n :: r => do
+    let k ← n.toNat?
+    let (e, r1) ← pE (r.drop k)
+    some (.store (← id.toNat?) (r.take k) e, r1)
+  | "ex" :: r => do
+    let (e, r1) ← pE r
+    some (.expr e, r1)
+  | "re" :: r => do
+    let (e, r1) ← pE r
+    some (.ret e, r1)
+  | "pa" :: r => some (.pass, r)
+  | "br" :: r => some (.brk, r)
+  | "co" :: r => some (.cont, r)
+  | "if" :: r => do
+    let (e, r1) ← pE r
+    let (b, r2) ← pL r1
+    let (o, r3) ← pL r2
+    some (.ifS e b o, r3)
+  | "wh" :: r => do
+    let (e, r1) ← pE r
+    let (b, r2) ← pL r1
+    let (o, r3) ← pL r2
+    some (.whileS e b o, r3)
+  | "fo" :: id :: x :: r => do
+    let (e, r1) ← pE r
+    let (b, r2) ← pL r1
+    let (o, r3) ← pL r2
+    some (.forS (← id.toNat?) x e b o, r3)
+  | "un" :: w :: r => some (.unsupported w, r)
+  | _ => none
+partial def pL : List String → Option (List S × List String)
+  | n :: r => do pLn (← n.toNat?) r
+  | [] => none
+partial def pLn : Nat → List String → Option (List S × List String)
+  | 0, r => some ([], r)
+  | n + 1, r => do
+    let (s, r1) ← pS r
+    let (ss, r2) ← pLn n r1
+    some (s :: ss, r2)
+end
+
+open Scfg.Py in
+partial def pBlocks : Nat → List String → Option (List PBlock × List String)
+  | 0, r => some ([], r)
+  | n + 1, name :: r => do
+    let (ss, r1) ← pL r
+    match r1 with
+    | "1" :: r2 => do
+      let (e, r3) ← pE r2
+      match r3 with
+      | nj :: r4 => do
+        let k ← nj.toNat?
+        let (bs, r5) ← pBlocks n (r4.drop k)
+        some ({ name := name, stmts := ss, test := some e, jts := r4.take k } :: bs, r5)
+      | [] => none
+    | "0" :: nj :: r4 => do
+      let k ← nj.toNat?
+      let (bs, r5) ← pBlocks n (r4.drop k)
+      some ({ name := name, stmts := ss, test := none, jts := r4.take k } :: bs, r5)
+    | _ => none
+  | _, _ => none
+
+def pParams : List String → Option (List String × List String)
+  | n :: r => do
+    let k ← n.toNat?
+    some (r.take k, r.drop k)
+  | [] => none
+
 structure DState where
   g : Hier := []
   gtop : Name := ""
@@ -18,6 +138,9 @@ structure DState where
   htop : Name := ""
   /-- model state for `OP` requests -/
   m : Model.St := { H := [], ng := [] }
+  pa : Py.MProg := #[]
+  pb : Py.MProg := #[]
+  pparams : List String := []
 
 def parseNg (s : String) : Except String Model.NameGen :=
   if s == "-" || s.isEmpty then pure [] else
@@ -129,11 +252,11 @@ def bit (b : Bool) : String := if b then "1" else "0"
 
 def bits (cs : List (String × Bool)) : String := String.join (cs.map fun c => bit c.2)
 
-def diagSim {β : Type} [BEq β] [Repr β] (A : Sys (Option Name)) (B : Sys β) (a0 : Option Name) (b0 : β)
+def diagSim {β : Type} [BEq β] [Hashable β] [Repr β] (A : Sys (Option Name)) (B : Sys β) (a0 : Option Name) (b0 : β)
     (fuel : Nat) : String :=
-  let R := buildSim A B fuel [(a0, b0)] []
-  match R.find? (fun p => !(pairOk A B R p)) with
-  | none => if R.contains (a0, b0) then "closed" else "start-missing"
+  let (R, _) := buildCert A B a0 b0 fuel
+  match R.toList.find? (fun p => !(A.obs p.1 == B.obs p.2)) with
+  | none => "closed"
   | some p => s!"orig={repr (A.obs p.1)} here={repr (B.obs p.2)} state={repr p.2}"
 
 def step (st : DState) (line : String) : DState × String :=
@@ -168,6 +291,42 @@ def step (st : DState) (line : String) : DState × String :=
       "nameC: " ++ diagSim (sysOrig G) (sysName H true) a0 (initName H st.htop true) f,
       "regionC: " ++ diagSim (sysOrig G) (sysRegion H true) a0 (initRegion H st.htop true) f])
   | ["ECHO"] => (st, printHier st.h)
+  | "PYA" :: r => match pParams r with
+    | some (ps, r1) => match pL r1 with
+      | some (body, []) => ({ st with pa := Py.compileFn body, pparams := ps }, "ok")
+      | _ => (st, "parse-error")
+    | none => (st, "parse-error")
+  | "PYB" :: r => match pParams r with
+    | some (_, r1) => match pL r1 with
+      | some (body, []) => ({ st with pb := Py.compileFn body }, "ok")
+      | _ => (st, "parse-error")
+    | none => (st, "parse-error")
+  | "PYCFGB" :: n :: r => match n.toNat? with
+    | some k => match pBlocks k r with
+      | some (bs, []) => ({ st with pb := Py.compileCfg bs }, "ok")
+      | _ => (st, "parse-error")
+    | none => (st, "parse-error")
+  | "PYAV" :: fp :: fh :: r => match pParams r with
+    | some (ps, r1) => match pL r1 with
+      | some (body, []) =>
+        ({ st with pa := Py.compileFn body { forPreset := fp == "1", feHoist := fh == "1" }, pparams := ps }, "ok")
+      | _ => (st, "parse-error")
+    | none => (st, "parse-error")
+  | ["PYSIM"] =>
+    let a := Py.sysOf st.pa; let b := Py.sysOf st.pb
+    let a0 := Py.initOfParams st.pa st.pparams; let b0 := Py.initOfParams st.pb st.pparams
+    let (R, cert) := buildCert a b a0 b0 200000
+    if verifyCert a b R cert a0 b0 then (st, s!"1 pairs={R.size}")
+    else match R.toList.find? (fun p => !(a.obs p.1 == b.obs p.2)) with
+      | some p => (st, s!"0 A:[{repr (a.obs p.1)}] B:[{repr (b.obs p.2)}]")
+      | none => (st, s!"0 search-limit-reached pairs={R.size}")
+  | ["PYRUN", which, ds] =>
+    let p := if which == "A" then st.pa else st.pb
+    let s := Py.sysOf p
+    let tr := run s (Py.initOfParams p st.pparams) (ds.toList.map fun c => if c == '0' then 0 else 1)
+    (st, " // ".intercalate (tr.map fun o => match o with
+      | .blk n k => s!"{n}#{k}"
+      | o => reprStr o))
   | ["SPEC", "insert_block", c, new, ps, ss] =>
     (st, bit (Model.insertSpecOK st.g st.h c new (lst ps) (lst ss)))
   | ["SPEC", "insert_ctl", c, new, ps, ss] =>
@@ -262,7 +421,7 @@ partial def loop (h : IO.FS.Stream) (out : IO.FS.Stream) (st : DState) : IO Unit
   let line ← h.getLine
   if line.isEmpty then return ()
   let (st', reply) := step st line
-  out.putStrLn reply
+  out.putStrLn (reply.replace "\n" " ")
   loop h out st'
 
 def main : IO Unit := do
